@@ -16,7 +16,7 @@ def shape_val(rng, s):
     form = rng.choice(["i8", "i8", "i4", "tuple"]) if s else "i8"
     if form == "tuple":
         return {"t": [gen.pyint(v) for v in s]}
-    dt = "<i8" if form == "i8" else "<i4"
+    dt = "<i8" if form == "i8" or any(abs(v) >= 2 ** 31 for v in s) else "<i4"
     return {"a": dt, "sh": [len(s)], "x": np.array(s, dtype=dt).tobytes().hex()}
 
 
@@ -95,6 +95,16 @@ def _run_main(ctx):
             types = {x: (rng.choice(SHAPES), rng.choice(SHAPES)) for x in names}
         edges = [(rng.choice(names), rng.choice(names)) for _ in range(rng.randrange(0, 7))]
         one(names, types, edges, "sampled")
+    # near misses at sizes where a tolerant comparison starts to blur: large axis lengths that differ by one
+    for _ in range(ctx.n(60, 300)):
+        big = rng.choice([10 ** 5, 10 ** 5 + 1, 262144, 10 ** 6, 2 ** 31, 10 ** 9 + 7, 2 ** 40])
+        a = [big] if rng.random() < 0.5 else [rng.randrange(1, 4), big]
+        b = list(a)
+        how = rng.choice(["same", "plus1", "minus1", "plus1", "minus1"])
+        b[-1] = big + {"same": 0, "plus1": 1, "minus1": -1}[how]
+        names = ["a", "b"]
+        types = {"a": (a, a), "b": (b, b)}
+        one(names, types, [("a", "b")], "near_miss_large_axis")
     # repeated checks of one graph object whose node types change in between: every verdict is about the graph as
     # it is at the time of the call
     import nir
@@ -142,6 +152,35 @@ def _run_main(ctx):
         if bad:
             ctx.violate(case, "a repeated type check of one graph object does not judge the graph as it now is",
                         {"site": "_check_types", "what": "recheck", "accepted": bad["accepted"]}, observed=bad)
+    # two nodes holding one and the same type-dictionary *object* (legal: `Output(other.output_type)`, `from_list`): an edge
+    # between them is judged by what the dictionary holds at the time of the call - undefined is undefined
+    for _ in range(ctx.n(40, 200)):
+        s0 = rng.choice(SHAPES[1:])
+        a = nir.Threshold(np.ones(s0) if s0 else np.array(1.0)); b = nir.Threshold(np.ones(s0) if s0 else np.array(1.0))
+        key = rng.choice(["output", "port", "input"])
+        shared = {key: (np.array(s0) if rng.random() < 0.6 else None)}
+        a.output_type = shared; b.input_type = shared
+        graph = nir.NIRGraph(nodes={"a": a, "b": b}, edges=[("a", "b")])
+        history = [["shared", key, shared[key] is not None]]
+        case = {"op": "shared_type_dict", "shape": s0, "history": history}
+        ctx.case(case); ctx.count("shared_type_dict")
+        bad = None
+        for step in range(3):
+            want = shared[key] is not None
+            try:
+                with quiet():
+                    got = graph._check_types() is True
+                err = None
+            except Exception as e:  # noqa
+                got, err = False, type(e).__name__
+            if want != got or (not want and err != "ValueError"):
+                bad = {"step": step, "want_accept": want, "accepted": got, "error": err}; break
+            # flip the shared entry in place
+            shared[key] = None if shared[key] is not None else np.array(s0)
+            history.append(["set", shared[key] is not None])
+        if bad:
+            ctx.violate(case, "the type check misjudges an edge whose two ends hold one type-dictionary object",
+                        {"site": "_check_types", "what": "shared-type-dict", "accepted": bad["accepted"]}, observed=bad)
     # ... and whose *edge list* changes in between: same number of edges re-assigned as a new list, one entry replaced in
     # place, an edge appended or removed (two shape classes, so that rewiring across them is what breaks consistency)
     for _ in range(ctx.n(120)):
